@@ -13,7 +13,8 @@ def elem(rng, ty):
         return str(rng.randint(0, 20)) if rng.random() < 0.8 else "-%d" % rng.randint(1, 9)
     if ty == "float":
         return rng.choice(["%d.%d" % (rng.randint(0, 6), rng.randint(0, 99)), "pi / %d" % rng.randint(1, 8), "%d" % rng.randint(0, 4), "-0.%d" % rng.randint(1, 9), "3 * pi / 4"])
-    return rng.choice(["%d+%dj" % (rng.randint(0, 5), rng.randint(1, 5)), "%dj" % rng.randint(1, 4), "%d.5-%dj" % (rng.randint(0, 5), rng.randint(1, 5)), "2"])
+    return rng.choice(["%d+%dj" % (rng.randint(0, 5), rng.randint(1, 5)), "%dj" % rng.randint(1, 4), "%d.5-%dj" % (rng.randint(0, 5), rng.randint(1, 5)), "2",
+                       "-0.0j", "%d-0.0j" % rng.randint(1, 5), "-%dj" % rng.randint(1, 4)])        # zero imaginary parts of negative sign
 
 
 def tdm_script(rng, with_params=False, with_loop=False):
@@ -113,7 +114,8 @@ def tdm_script(rng, with_params=False, with_loop=False):
 
 def same_value(a, b):
     if isinstance(a, np.ndarray) or isinstance(b, np.ndarray):
-        return isinstance(a, np.ndarray) and isinstance(b, np.ndarray) and a.shape == b.shape and a.dtype.kind == b.dtype.kind and np.array_equal(a, b)
+        return isinstance(a, np.ndarray) and isinstance(b, np.ndarray) and a.shape == b.shape and a.dtype.kind == b.dtype.kind and np.array_equal(a, b) \
+            and (a.dtype.kind not in "fc" or (np.array_equal(np.signbit(a.real), np.signbit(b.real)) and np.array_equal(np.signbit(a.imag), np.signbit(b.imag))))
     if isinstance(a, (list, tuple)):
         return isinstance(b, (list, tuple)) and len(a) == len(b) and all(same_value(x, y) for x, y in zip(a, b))
     if isinstance(a, (float, np.floating, complex, np.complexfloating, int, np.integer)) and not isinstance(a, (bool, np.bool_)):
